@@ -89,20 +89,23 @@ fn main() {
             // C19: adversarial toolchain ids on the real TcCache: every file created must stay under the cache root, nothing may panic
             verif_harness::quiet_panics();
             // (ids whose second byte is `/` would address the real file-system root: not probed, the scratch-confined ones show the same arithmetic)
-            let ids = ["", "a", "ab", "abcdef", "<ABS>", "../../escape", "..", "éé", "ab/../../../x", "0123456789abcdef0123456789abcdef0123456789abcdef0123456789abcdef"];
+            let mut ids: Vec<String> = ["", "a", "ab", "abcdef", "<ABS>", "../../escape", "..", "éé", "ab/../../../x", "0123456789abcdef0123456789abcdef0123456789abcdef0123456789abcdef"].iter().map(|s| s.to_string()).collect();
+            // generated ids for the tie with the model of `valid_archive_id` (PathsM.validId): short, hex and not, separators, dots, non-ASCII
+            let mut rng = Rng::from_env(); let alphabet = ["a", "f", "0", "9", "A", "F", "g", "G", ".", " ", "é", "Z", "_", "-", "b"];
+            for _ in 0..150 { let n = rng.below(7); ids.push((0..n).map(|_| *rng.pick(&alphabet)).collect::<String>()); }
             let mut out = vec![];
-            for id0 in ids {
+            for id0 in ids.iter().map(|s| s.as_str()) {
                 let tmp = tempfile::tempdir().unwrap(); let root = tmp.path().join("srv").join("tc"); std::fs::create_dir_all(&root).unwrap();
                 let abs = format!("{}/abs-escape", tmp.path().canonicalize().unwrap().display());
                 let id: &str = if id0 == "<ABS>" { &abs } else { id0 };
                 let written: std::sync::Arc<std::sync::Mutex<Option<std::path::PathBuf>>> = Default::default();
-                let w2 = written.clone();
+                let w2 = written.clone(); let ran = std::sync::Arc::new(std::sync::atomic::AtomicBool::new(false)); let ran2 = ran.clone();
                 let r = std::panic::catch_unwind(std::panic::AssertUnwindSafe(|| {
                     let mut tc = TcCache::new(&root, 1_000_000).unwrap();
                     let t = Toolchain { archive_id: id.to_string() };
                     let has = tc.contains_toolchain(&t);
                     // where does the upload really land? (the file may be removed again when its digest does not match)
-                    let ins = tc.insert_with(&t, |mut f| { use std::os::fd::AsRawFd; *w2.lock().unwrap() = std::fs::read_link(format!("/proc/self/fd/{}", f.as_raw_fd())).ok(); f.write_all(b"payload") }).is_ok();
+                    let ins = tc.insert_with(&t, |mut f| { use std::os::fd::AsRawFd; ran2.store(true, std::sync::atomic::Ordering::SeqCst); *w2.lock().unwrap() = std::fs::read_link(format!("/proc/self/fd/{}", f.as_raw_fd())).ok(); f.write_all(b"payload") }).is_ok();
                     (has, ins)
                 }));
                 // anything created outside the cache root (but inside the scratch dir, which is all an escape with few `..` can reach)
@@ -112,7 +115,7 @@ fn main() {
                 let abs_created = id.starts_with('/') && std::path::Path::new(id).exists();
                 if abs_created { let _ = std::fs::remove_file(id); }
                 let _ = abs_created;
-                out.push(format!("{{\"id\":{},\"panicked\":{},\"outside_root\":{}}}", jstr(&id.replace(&tmp.path().canonicalize().unwrap().display().to_string(), "/<scratch>")), r.is_err(), jstr(&outside.join(","))));
+                out.push(format!("{{\"hex\":\"{}\",\"accepted\":{},\"id\":{},\"panicked\":{},\"outside_root\":{}}}", hex_e(id.as_bytes()), ran.load(std::sync::atomic::Ordering::SeqCst), jstr(&id.replace(&tmp.path().canonicalize().unwrap().display().to_string(), "/<scratch>")), r.is_err(), jstr(&outside.join(","))));
             }
             println!("[{}]", out.join(","));
         }
